@@ -150,13 +150,13 @@ def coq_ops(ops):
     return clist(out)
 
 
-def thread_run(pexpect, reads):
+def thread_run(pexpect, reads, encoding=None):
     """the REAL _read_incoming (called directly, not in a thread) on scripted os.read results; -> queue contents"""
     import pexpect.popen_spawn as pp
     import queue
     from pexpect.spawnbase import SpawnBase
     sp = pp.PopenSpawn.__new__(pp.PopenSpawn)
-    SpawnBase.__init__(sp, timeout=30, encoding=None)
+    SpawnBase.__init__(sp, timeout=30, encoding=encoding)
     sp._read_queue = queue.Queue()
     script = list(reads)
 
@@ -187,5 +187,7 @@ def thread_run(pexpect, reads):
         sp.closed = True
     out = []
     while not sp._read_queue.empty():
-        out.append(sp._read_queue.get_nowait())
+        x = sp._read_queue.get_nowait()
+        # the queue carries what os.read returned (bytes) or the end-of-file marker: anything else is reported as it is
+        out.append(x if (x is None or isinstance(x, bytes)) else ('not-bytes', repr(x)))
     return out, len(script)
